@@ -70,6 +70,8 @@ type Peer struct {
 	stores map[string]iface.Store
 	ctx    context.Context
 	cancel context.CancelFunc
+	// cancels the context the current orbit-db instance was created with
+	instCancel context.CancelFunc
 
 	RemoteFetches int64
 }
@@ -184,10 +186,16 @@ func (p *Peer) Start() error {
 	if p.Opts.Cache != nil {
 		opts.Cache = p.Opts.Cache
 	}
-	db, err := orbitdb.NewOrbitDB(p.ctx, p.API, opts)
+	ictx, icancel := context.WithCancel(p.ctx)
+	db, err := orbitdb.NewOrbitDB(ictx, p.API, opts)
 	if err != nil {
+		icancel()
 		return fmt.Errorf("NewOrbitDB: %w", err)
 	}
+	if p.instCancel != nil {
+		p.instCancel()
+	}
+	p.instCancel = icancel
 	p.DB = db
 	p.Bus = db.EventBus()
 	p.stores = map[string]iface.Store{}
@@ -210,6 +218,17 @@ func (p *Peer) deliverDirect(from peer.ID, data []byte) bool {
 		return false
 	}
 	return d.emit(from, data)
+}
+
+// CancelInstanceContext ends the context the instance was created with (the application cancels its
+// root context); the instance itself is not closed.
+func (p *Peer) CancelInstanceContext() {
+	p.mu.Lock()
+	c := p.instCancel
+	p.mu.Unlock()
+	if c != nil {
+		c()
+	}
 }
 
 // Stop closes the orbit-db instance (the kubo node and directories stay).
